@@ -210,6 +210,41 @@ fn infinite_bound_histories() -> Vec<String> {
     bad
 }
 
+/// The same rule in single precision: the solver is generic over the float type, the bound is a module-level f64.  A row whose
+/// right-hand side equals the bound (as the solver's float type sees it) is dropped, one just below it is kept.
+fn single_precision_histories() -> Vec<String> {
+    let mut bad = vec![];
+    let res = catch_unwind(AssertUnwindSafe(|| {
+        let mut out = vec![];
+        for bound in [1e20f64, 1e6, 4096.0, 1e30] {
+            clarabel::default_infinity();
+            clarabel::set_infinity(bound);
+            let bt = bound as f32;
+            let below = bt * 0.999;     // clearly below the bound (the code contracts the bound by 10 machine epsilons of the float type before comparing)
+            let b: Vec<f32> = vec![3.0, bt, below, f32::INFINITY, bt * 2.0];
+            let want: Vec<bool> = b.iter().map(|v| *v >= bt).collect();   // dropped rows
+            let A = clarabel::algebra::CscMatrix::<f32>::new(5, 1, vec![0, 5], vec![0, 1, 2, 3, 4], vec![1.0; 5]);
+            let P = clarabel::algebra::CscMatrix::<f32>::new(1, 1, vec![0, 1], vec![0], vec![1.0]);
+            let q = vec![1.0f32];
+            let st = clarabel::solver::DefaultSettingsBuilder::<f32>::default().verbose(false).presolve_enable(true).equilibrate_enable(false).build().unwrap();
+            let mut solver = clarabel::solver::DefaultSolver::<f32>::new(&P, &q, &A, &b, &[clarabel::solver::SupportedConeT::NonnegativeConeT(5)], st);
+            let kept = want.iter().filter(|d| !**d).count();
+            if solver.data.m != kept { out.push(format!("single precision, bound {}: {} internal rows but {} of the right-hand sides {:?} lie below the bound", bound, solver.data.m, kept, b)); continue; }
+            solver.solve();
+            let sol = &solver.solution;
+            if sol.s.len() != 5 || sol.z.len() != 5 { out.push(format!("single precision, bound {}: returned s / z have lengths {} / {}", bound, sol.s.len(), sol.z.len())); continue; }
+            for i in 0..5 {
+                if want[i] && !(sol.z[i] == 0.0 && sol.s[i] == bt) { out.push(format!("single precision, bound {}: dropped row {} returns s = {}, z = {} (expected the bound and 0)", bound, i, sol.s[i], sol.z[i])); }
+            }
+        }
+        clarabel::default_infinity();
+        out
+    }));
+    clarabel::default_infinity();
+    match res { Ok(v) => bad.extend(v), Err(e) => bad.push(format!("panic: {}", crate::rec_ipm::panic_msg(e))) }
+    bad
+}
+
 pub fn replay_file(path: &str, out: &str, seed: u64) -> Value {
     let text = std::fs::read_to_string(path).expect("behaviours");
     let mut rng = StdRng::seed_from_u64(seed);
@@ -229,6 +264,9 @@ pub fn replay_file(path: &str, out: &str, seed: u64) -> Value {
     if n > 1 {
         for m in infinite_bound_histories() {
             bad.push(json!({"behaviour": {"cones": [], "bcls": [], "presolve": true, "hist": [], "expect": {}, "infinite_bound_history": true}, "mismatch": m, "class": "infinite_bound_history"}));
+        }
+        for m in single_precision_histories() {
+            bad.push(json!({"behaviour": {"cones": [], "bcls": [], "presolve": true, "hist": [], "expect": {}, "single_precision_history": true}, "mismatch": m, "class": "single_precision_bound"}));
         }
     }
     crate::write_lines(out, &bad);
